@@ -116,6 +116,7 @@ func (c *ctx) probeConn(i int) {
 					c.v("C01/decode-rejects-rfc-bytes", "conn %d invocation %d: library decoder %s rejected RFC-laid-out bytes: %s", id, inv.Index, pr.Step.Decode, inv.DecErr)
 				} else if inv.Decoded != nil && !inv.Decoded.Same(pr.Spec.Body) {
 					c.v("C01/decode-differs", "conn %d invocation %d: library decoder %s yields a different value than the RFC layout carries", id, inv.Index, pr.Step.Decode)
+					c.vs("C02/decoded-value-differs", pr.Step.Decode, "conn %d invocation %d: a %s value that encodes without error decodes, without error, to a different value", id, inv.Index, pr.Step.Decode)
 				}
 			}
 			pr.Lost = c.replyWriteRefused(id, inv.Index)
